@@ -92,7 +92,7 @@ func (l *Loader) Import(path string) (*types.Package, error) {
 }
 
 // realThirdParty: third-party packages loaded from source instead of being faked.
-var realThirdParty = map[string]bool{"golang.org/x/net/ipv4": true, "golang.org/x/net/ipv6": true}
+var realThirdParty = map[string]bool{"golang.org/x/net/ipv4": true, "golang.org/x/net/ipv6": true, "github.com/fako1024/slimcap/capture": true}
 
 func modCache() string {
 	if d := os.Getenv("GOMODCACHE"); d != "" {
@@ -160,7 +160,9 @@ func (l *Loader) loadThirdParty(path string) *types.Package {
 		return nil
 	}
 	saved := realThirdParty
-	realThirdParty = map[string]bool{} // one level only
+	// one level only — except the leaf packages (constants only) that were real before, so that a
+	// nested import does not cache a faked copy of them
+	realThirdParty = map[string]bool{"golang.org/x/net/ipv4": saved["golang.org/x/net/ipv4"], "golang.org/x/net/ipv6": saved["golang.org/x/net/ipv6"]}
 	defer func() { realThirdParty = saved }()
 	conf := types.Config{Importer: l, Error: func(error) {}, FakeImportC: true}
 	tp, _ := conf.Check(path, l.Fset, files, nil)
